@@ -35,6 +35,17 @@ func normText(b []byte) string {
 	return tsRe.ReplaceAllString(string(t), "T") + "|" + project.Digest(b[len(t):])
 }
 
+func clamp30(v int64) int64 {
+	const lim = int64(1) << 30
+	if v > lim {
+		return lim
+	}
+	if v < -lim {
+		return -lim
+	}
+	return v
+}
+
 func ttmlTimes(b []byte) []int64 {
 	b = ttmlPart(b)
 	var out []int64
@@ -157,11 +168,13 @@ func Main(args []string) error {
 								}
 								tf := project.Pair(int64(m.Frags[0].Tfdt), rt.L)
 								e["tfdt"] = tf[:]
-								e["dur"] = int64(m.TotalDur)
+								e["dur"] = clamp30(int64(m.TotalDur))
 								fr := [][]int64{}
 								for j, f := range m.Frags {
 									if j < 16 {
-										fr = append(fr, []int64{int64(f.Tfdt - m.Frags[0].Tfdt), int64(f.Dur)})
+										// offsets far outside a segment (a wrapped 32-bit decode time) are clamped: they fail C01.frags
+										// as any other wrong offset, and stay within TLC's integers
+										fr = append(fr, []int64{clamp30(int64(f.Tfdt) - int64(m.Frags[0].Tfdt)), clamp30(int64(f.Dur))})
 									}
 								}
 								e["frags"] = fr
